@@ -21,7 +21,7 @@ VARIABLE_SIZE = {"BeeColonyOptimization", "ForestOptimizationAlgorithm", "Imperi
 def job_key(job):
     out = {k: job.get(k) for k in ("name", "specs", "objective", "minmax", "weights", "seed", "cfg", "mode", "workers", "pool_perm")}
     # what makes a run a multi-step history must survive into the replay file
-    out.update({k: job[k] for k in ("warmup", "reconfigure_from", "scribble", "derive_from", "weights_initial", "weights_via", "delay", "utils", "raise_after") if job.get(k) is not None})
+    out.update({k: job[k] for k in ("warmup", "reconfigure_from", "scribble", "nested", "derive_from", "weights_initial", "weights_via", "delay", "utils", "raise_after") if job.get(k) is not None})
     return out
 
 
